@@ -43,6 +43,7 @@ def main():
     ap.add_argument("--show", type=int, default=15)
     ap.add_argument("--no-build", action="store_true")
     ap.add_argument("--save", default=None, help="write mismatching cases to this file")
+    ap.add_argument("--role", default="server", help="server (inb3/inb5) or client (cli3/cli5)")
     args = ap.parse_args()
 
     if not args.no_build:
@@ -59,15 +60,16 @@ def main():
     versions = [3, 5] if args.v == "both" else [int(args.v)]
     bad_total = 0
     for v in versions:
-        name = "inb%d" % v
+        name = ("inb%d" if args.role == "server" else "cli%d") % v
         if args.cases:
             cases = [l.strip() for l in open(args.cases) if l.strip() and not l.startswith("#")]
         else:
-            cases = G.generate(v, random.Random(args.seed * 10 + v), args.scale)
+            cases = G.generate(v, random.Random(args.seed * 10 + v), args.scale, args.role)
         t0 = time.time()
         hobs = C.run_harness(name, cases)
         t1 = time.time()
-        mobs = run_model(args.driver, 33 if v == 3 else 34, cases)
+        eng = (33 if v == 3 else 34) if args.role == "server" else (39 if v == 3 else 40)
+        mobs = run_model(args.driver, eng, cases)
         t2 = time.time()
         bad = [i for i in range(len(cases)) if hobs[i] != mobs[i]]
         panics = [i for i in range(len(cases)) if hobs[i] == C.PANIC]
